@@ -104,7 +104,7 @@ func zzASGmtRandom(raw *[]byte) uint32 { return 0 }
 //verif:stub (*github.com/tjfoc/gmsm/gmtls.Conn).sendAlert zzStubSendAlert08
 //verif:stub (*github.com/tjfoc/gmsm/gmtls.Conn).readHandshake zzASReadHandshake
 //verif:stub github.com/tjfoc/gmsm/gmtls.gmtRandom zzASGmtRandom
-//verif:unwind 100
+//verif:unwind 3000
 func zzH_c06_autoswitch_hello_gm() {
 	sig, enc := &Certificate{Certificate: [][]byte{{1}}}, &Certificate{Certificate: [][]byte{{2}}}
 	cfg := &Config{SessionTicketsDisabled: true, Rand: zzZeroReader{}, PreferServerCipherSuites: vBool("preferServer")}
@@ -209,7 +209,7 @@ func (k zzSignDecryptKey) Decrypt(r io.Reader, m []byte, o crypto.DecrypterOpts)
 //verif:outside ALPN/NPN/SCT echo; resumption (C16); fallback SCSV
 //verif:stub (*github.com/tjfoc/gmsm/gmtls.Conn).sendAlert zzStubSendAlert08
 //verif:stub (*github.com/tjfoc/gmsm/gmtls.Conn).readHandshake zzASReadHandshake
-//verif:unwind 100
+//verif:unwind 3000
 func zzH_c06_autoswitch_hello_tls() {
 	kind := vChoice("key", 4)
 	var priv crypto.PrivateKey
